@@ -10,7 +10,8 @@ RULE = ("one extended-Lagrangian scalar variable with random fluctuation / time 
         "reflecting boundary on either side, a harmonic bias on the extended coordinate and a harmonicWalls bias acting on the "
         "actual value, trajectories of 40-200 steps cut by repeated step-0 and by save / fresh instance / load; "
         "non-trivial = the coordinate moved; distinct by op text")
-ASSUMPTIONS = ["the variable's own timeStepFactor is 1 (factors > 1 are exercised for biases in C08)"]
+ASSUMPTIONS = ["the variable and the biases acting on it share one timeStepFactor n in {1, 2, 3} (a third of the cases have n > 1): the variable is "
+               "integrated only at steps that are multiples of n, with the slow time step n*dt in every term of the integrator (kick, drift, friction, noise)"]
 
 
 def gen(rng, tier):
@@ -31,25 +32,27 @@ def gen(rng, tier):
         lb, ub = -1.5, 1.5
         refl_lo = mode in ("reflect_lo",) or (mode == "generic" and rng.rand() < 0.3)
         refl_hi = mode in ("reflect_hi",) or (mode == "generic" and rng.rand() < 0.3)
+        tsf = 1 if k % 3 != 2 else rng.choice([2, 3])
         kext = KB * T / (tol * tol)
         mext = (KB * T * tau * tau) / (4.0 * PI * PI * tol * tol)
         gam = g * 1.0e-3
-        sig = math.sqrt((1.0 - math.exp(-2.0 * gam * dt * 1.0)) * mext * KB * T) if g != 0.0 else 0.0
-        conf = ("colvar {\n name e\n width %s\n lowerBoundary %s\n upperBoundary %s\n extendedLagrangian on\n extendedFluctuation %s\n"
+        sig = math.sqrt((1.0 - math.exp(-2.0 * gam * dt * float(tsf))) * mext * KB * T) if g != 0.0 else 0.0
+        tl = (" timeStepFactor %d\n" % tsf) if tsf > 1 else ""
+        conf = ("colvar {\n name e\n" + tl + " width %s\n lowerBoundary %s\n upperBoundary %s\n extendedLagrangian on\n extendedFluctuation %s\n"
                 " extendedTimeConstant %s\n extendedTemp %s\n extendedLangevinDamping %s\n%s%s outputEnergy on\n outputVelocity on\n"
                 " distanceZ {\n  main { atomNumbers 1 }\n  ref { dummyAtom (0.0, 0.0, 0.0) }\n  axis (0.0, 0.0, 1.0)\n }\n}\n") % (
             num(w), num(lb), num(ub), num(tol), num(tau), num(T), num(g),
             " reflectingLowerBoundary on\n" if refl_lo else "", " reflectingUpperBoundary on\n" if refl_hi else "")
         bconf = ""
         if kb:
-            bconf += "harmonic {\n name hb\n colvars e\n forceConstant %s\n centers %s\n}\n" % (num(kb), num(cb))
+            bconf += "harmonic {\n name hb\n" + tl + " colvars e\n forceConstant %s\n centers %s\n}\n" % (num(kb), num(cb))
         if kw:
-            bconf += "harmonicWalls {\n name hw\n colvars e\n upperWalls %s\n forceConstant %s\n}\n" % (num(uw), num(kw))
+            bconf += "harmonicWalls {\n name hw\n" + tl + " colvars e\n upperWalls %s\n forceConstant %s\n}\n" % (num(uw), num(kw))
         seed = rng.randint(1, 1 << 30)
         setup = ["m.opt dt %s" % fbits(dt), "m.opt rng %d" % seed, cfg(conf)] + ([cfg(bconf)] if bconf else [])
-        mext_line = "M.ext e 0 k=%s mass=%s dt=%s gamma=%s sigma=%s langevin=%d width=%s rl=%s ru=%s haslo=%d hasup=%d kb=%s cb=%s kw=%s uw=%s" % (
+        mext_line = "M.ext e 0 k=%s mass=%s dt=%s gamma=%s sigma=%s langevin=%d width=%s rl=%s ru=%s haslo=%d hasup=%d kb=%s cb=%s kw=%s uw=%s tsf=%d" % (
             fbits(kext), fbits(mext), fbits(dt), fbits(gam), fbits(sig), 1 if g != 0.0 else 0, fbits(w), fbits(lb), fbits(ub),
-            1 if refl_lo else 0, 1 if refl_hi else 0, fbits(kb), fbits(cb), fbits(kw), fbits(uw))
+            1 if refl_lo else 0, 1 if refl_hi else 0, fbits(kb), fbits(cb), fbits(kw), fbits(uw), tsf)
         lines = ["m.new 1"] + setup + [mext_line]
         nsteps = rng.randint(40, 90) if tier == "quick" else rng.randint(40, 200)
         x = rng.uniform(-1.0, 1.0)
@@ -61,7 +64,10 @@ def gen(rng, tier):
         prev_boundary = True
         while t < nsteps:
             boundary = None
-            if mode not in ("conserve", "conserve_bias") and not prev_boundary and rng.rand() < 0.06:
+            it_now = max(t - 1, 0)           # absolute step of a repeated step, or (for a new step) it_now + 1 below
+            if tsf > 1 and (it_now % tsf != 0 or t == 0):
+                pass
+            elif mode not in ("conserve", "conserve_bias") and not prev_boundary and rng.rand() < 0.06:
                 boundary = rng.choice(["cont", "restart"]) if g == 0.0 else "cont"   # the Gaussian stream is not part of the state
             elif hist and hist[-1]["boundary"] == "restart" and rng.rand() < 0.6:
                 boundary = "cont"     # "run 0" after a restart, then the real run: step zero evaluated twice
@@ -82,22 +88,26 @@ def gen(rng, tier):
             else:
                 lines.append("m.step"); t += 1
             prev_boundary = boundary is not None
+            it_done = max(t - 1, 0)
+            if it_done % tsf != 0:
+                continue                     # the variable sleeps at this step: nothing to report
             step_line = len(lines)
             lines.append("e.dump e")
             hist.append({"x": x, "boundary": boundary, "line": step_line})
-        cases.append({"lines": lines, "meta": {"mode": mode, "k": kext, "m": mext, "dt": dt, "gamma": gam, "kb": kb, "cb": cb, "kw": kw, "uw": uw,
+        cases.append({"lines": lines, "meta": {"mode": mode, "k": kext, "m": mext, "dt": dt, "gamma": gam, "kb": kb, "cb": cb, "kw": kw, "uw": uw, "tsf": tsf, "T": T,
                                                 "w": w, "lb": lb, "ub": ub, "refl_lo": refl_lo, "refl_hi": refl_hi, "history": hist},
                       "nontrivial": True})
     return cases
 
 
 def distribution(cases):
-    d = {"mode": {}, "steps": 0, "cont": 0, "restart": 0}
+    d = {"mode": {}, "tsf": {}, "steps": 0, "cont": 0, "restart": 0}
     for c in cases:
         m = c["meta"]
         if "mode" not in m:
             continue
         d["mode"][m["mode"]] = d["mode"].get(m["mode"], 0) + 1
+        d["tsf"][str(m.get("tsf", 1))] = d["tsf"].get(str(m.get("tsf", 1)), 0) + 1
         d["steps"] += len(m["history"]); d["cont"] += sum(1 for h in m["history"] if h["boundary"] == "cont")
         d["restart"] += sum(1 for h in m["history"] if h["boundary"] == "restart")
     return d
@@ -110,7 +120,8 @@ def vals(out, ln, tag):
 
 def oracle(case, out):
     m = case["meta"]; viol = []
-    k, ms, h = m["k"], m["m"], m["dt"]
+    nf = float(m.get("tsf", 1))
+    k, ms, h = m["k"], m["m"], m["dt"] * nf
     rows = []
     for hh in m["history"]:
         ln = hh["line"] + 1
@@ -139,12 +150,38 @@ def oracle(case, out):
         wallf = 0.0
         if m["kw"] and x > m["uw"]:
             wallf = -m["kw"] / (m["w"] ** 2) * (x - m["uw"])
-        if abs(r["fa"] - (spring + wallf)) > 1e-8 * max(1.0, abs(spring)):
-            viol.append("step %d: force on the atoms %r, coupling spring + bypassing biases give %r" % (i, r["fa"], spring + wallf))
+        if abs(r["fa"] - nf * (spring + wallf)) > 1e-8 * max(1.0, abs(nf * spring)):
+            viol.append("step %d: force on the atoms %r, %g x (coupling spring + bypassing biases) gives %r" % (i, r["fa"], nf, nf * (spring + wallf)))
             return viol
         fb = -m["kb"] / (m["w"] ** 2) * (r["xr"] - m["cb"]) if m["kb"] else 0.0
         if abs(r["fr"] - fb) > 1e-8 * max(1.0, abs(fb)):
             viol.append("step %d: bias force on the extended coordinate %r, harmonic bias at the reported value gives %r" % (i, r["fr"], fb))
+            return viol
+    # the documented integrator (BAOA, slow time step n*dt in every term), recomputed from the reported state, the closed-form
+    # forces and the Gaussian numbers the library actually drew at that step
+    gam = m["gamma"]
+    sig = math.sqrt((1.0 - math.exp(-2.0 * gam * h)) * ms * KB * m["T"]) if gam != 0.0 else 0.0
+    for i, r in enumerate(rows):
+        x = m["history"][i]["x"]
+        fb = -m["kb"] / (m["w"] ** 2) * (r["xr"] - m["cb"]) if m["kb"] else 0.0
+        fext = fb - k * (r["xr"] - x)
+        v2 = r["vr"] + h * fext / ms
+        x1 = r["xr"] + h * v2 / 2.0
+        if gam != 0.0:
+            g = vals(out, m["history"][i]["line"] + 1, "rnd")
+            if not g or len(g) != 1:
+                viol.append("step %d: a variable with friction drew %r Gaussian numbers instead of one" % (i, g)); return viol
+            v3 = math.exp(-gam * h) * v2 + sig * g[0] / ms
+        else:
+            v3 = v2
+        x2 = x1 + h * v3 / 2.0
+        if (m["refl_lo"] and x2 < m["lb"]) or (m["refl_hi"] and x2 > m["ub"]):
+            continue                      # reflection: checked below
+        tolx = 1e-9 * max(1.0, abs(x2)); tolv = 1e-9 * max(1.0, abs(v3))
+        if abs(r["xnext"] - x2) > tolx or abs(r["vnext"] - v3) > tolv:
+            viol.append("step %d (time-step factor %g, friction %g/fs): the integrator left (x, v) = (%r, %r); the documented recurrence with time step "
+                        "%g from the reported (%r, %r), force %r and the drawn number gives (%r, %r)" % (
+                            i, nf, gam, r["xnext"], r["vnext"], h, r["xr"], r["vr"], fext, x2, v3))
             return viol
     # reflecting boundaries
     for i, r in enumerate(rows):
